@@ -2492,6 +2492,10 @@ class ProvDocument(ProvBundle):
         if valid_id in self._bundles:
             raise ProvException("A bundle with that identifier already exists")
         b = ProvBundle(identifier=valid_id, document=self)
+        # make the identifier valid in the scope of the new bundle as well
+        # (as add_bundle() does): readers resolve it there, and the bundle may
+        # later declare the same prefix for another namespace
+        b._identifier = b.valid_qualified_name(valid_id)
         self._bundles[valid_id] = b
         return b
 
